@@ -17,7 +17,7 @@ RULE_TEXT = ('strict-ranking profiles, weighted to G5 (a solid coalition support
 ASSUMPTIONS = ['solid support is counted conservatively, so the monitor never demands more than the property',
                'the allowance is the property\'s own: ballots x candidates x 2 units in the last place (vacuous for multi-seat integer arithmetic)']
 MIN_COUNTERS = {'counts_judged': 200, 'obligations_checked': 1000, 'binding_obligations': 300, 'tight_obligations': 50, 'one_seat_majorities_checked': 20}
-WEIGHTS = dict(G1=2, G2=2, G5=8, G6=1, G10=2)
+WEIGHTS = dict(G1=2, G2=2, G5=6, G5b=3, G6=1, G10=2)
 ANCHOR_FILES = ['droop/rules/wigm.py', 'droop/rules/wigm_prf.py', 'droop/rules/cfer.py', 'droop/rules/scotland.py', 'droop/rules/mpls.py',
                 'droop/rules/meek.py', 'droop/rules/meek_prf.py', 'droop/rules/qpq.py']
 
